@@ -75,20 +75,26 @@ impl FixtureDatabase {
         None
     }
 
-    /// Get the fixture definition at a specific line (if the line is a fixture definition)
+    /// Get the fixture definition whose function spans a specific line: its `def` line, the
+    /// continuation lines of a wrapped signature, or its body (innermost one if nested).
     fn get_fixture_definition_at_line(
         &self,
         file_path: &Path,
         line: usize,
     ) -> Option<FixtureDefinition> {
+        let mut enclosing: Option<FixtureDefinition> = None;
         for entry in self.definitions.iter() {
             for def in entry.value().iter() {
-                if def.file_path == file_path && def.line == line {
-                    return Some(def.clone());
+                if def.file_path == file_path
+                    && def.line <= line
+                    && line <= def.end_line
+                    && enclosing.as_ref().is_none_or(|e| e.line < def.line)
+                {
+                    enclosing = Some(def.clone());
                 }
             }
         }
-        None
+        enclosing
     }
 
     /// Find fixture definition at a given position, checking both usages and definitions.
